@@ -508,7 +508,15 @@ func (cr *checkRun) report(start time.Time, loadS float64, reports []*FuncReport
 			}
 			// kind@"source snippet": matches an obligation of that kind whose source line contains the snippet
 			if i := strings.Index(suffix, "@"); i > 0 && j.Kind == suffix[:i] && j.ob != nil {
-				snip := strings.Trim(suffix[i+1:], "\"")
+				rest := suffix[i+1:]
+				if h := strings.LastIndex(rest, "\"#"); h > 0 {
+					// clause index of a precondition:  pre@"snippet"#1
+					if !strings.HasSuffix(j.ob.Site, ":"+fmt.Sprintf("%03s", rest[h+2:])) {
+						continue
+					}
+					rest = rest[:h+1]
+				}
+				snip := strings.Trim(rest, "\"")
 				if line := sourceLine(cr.prog, j.ob.Pos); line != "" && strings.Contains(strings.ReplaceAll(line, " ", ""), strings.ReplaceAll(snip, " ", "")) {
 					return reason
 				}
